@@ -129,6 +129,10 @@ def generate(seed, tier="quick"):
             for e in seq:
                 eid_n += 1
                 e["eid"] = f"e{eid_n}"
+                if len(e.get("vals", [])) >= 2 and sites[e["site"]]["place"] == "direct" and sub(seed, f"fin{eid_n}").random() < 0.4:
+                    # one textual call reached by two instructions: the looped comparison sits in a finally block whose body is evaluated on the
+                    # normal and on the exceptional path alternately; the evaluations still belong to one call site (same aggregate as a plain loop)
+                    e["fin"] = True
         files.append({"name": f"test_{'ab'[fi]}.py", "header": files[0]["header"] if (twin and fi == 1) else W.gen_layout(rng),
                       "sites": sites, "tests": [], "_per_site": per_site})
     srng = sub(seed, "schedule")
